@@ -36,6 +36,7 @@ import (
 type pki struct {
 	dir                         string
 	caPEM                       []byte
+	fcaPEM                      []byte // the foreign CA (clients of kind 3 chain to it)
 	caPool                      *x509.CertPool
 	serverCert, serverKey       string // files
 	server2Cert, server2Key     []byte // PEM of the rotation certificate
@@ -92,7 +93,7 @@ func getPKI() (*pki, error) {
 		}
 		fca := base("foreign CA", 2)
 		fca.IsCA, fca.KeyUsage = true, fca.KeyUsage|x509.KeyUsageCertSign
-		_, _, fcaCert, fcaKey, err := mkCert(fca, nil, nil)
+		fcaPEM, _, fcaCert, fcaKey, err := mkCert(fca, nil, nil)
 		if err != nil {
 			pkiErr = err
 			return
@@ -135,6 +136,7 @@ func getPKI() (*pki, error) {
 			return
 		}
 		p.caPEM = caPEM
+		p.fcaPEM = fcaPEM
 		p.caPool = x509.NewCertPool()
 		p.caPool.AppendCertsFromPEM(caPEM)
 		thePKI = p
@@ -160,6 +162,9 @@ type c30Case struct {
 	// rotation step: "" none, "export" UpdateExportOptions(GetExportOptions()), "export2" the same twice,
 	// "tuning" UpdateTuningOptions
 	PreUpdate string `json:"pre_update,omitempty"`
+	// SwapCA: after the first round the listener is stopped, CAFile is pointed at another CA through
+	// GetExportOptions/UpdateExportOptions and a new listener is started: the configured CA is now the other one
+	SwapCA bool `json:"swap_ca,omitempty"`
 }
 
 var c30Versions = []uint16{0, tls.VersionTLS10, tls.VersionTLS11, tls.VersionTLS12, tls.VersionTLS13}
@@ -167,7 +172,7 @@ var c30Versions = []uint16{0, tls.VersionTLS10, tls.VersionTLS11, tls.VersionTLS
 func genC30(t *rapid.T) c30Case {
 	c := c30Case{MinV: rapid.IntRange(0, 4).Draw(t, "min"), MaxV: rapid.IntRange(0, 4).Draw(t, "max"), ClientAuth: rapid.IntRange(0, 4).Draw(t, "auth"),
 		CA: pick(t, "ca", 0, 1, 1, 1, 2), Ciphers: rapid.IntRange(0, 3).Draw(t, "ciphers"), Rotate: rapid.IntRange(0, 2).Draw(t, "rotate") == 0,
-		PreUpdate: pick(t, "preupdate", "", "", "export", "export2", "tuning")}
+		PreUpdate: pick(t, "preupdate", "", "", "export", "export2", "tuning"), SwapCA: rapid.IntRange(0, 2).Draw(t, "swapca") == 0}
 	if rapid.Bool().Draw(t, "sane") {
 		// bias towards configurations the server accepts
 		c.MinV, c.MaxV = pick(t, "smin", 0, 3, 3, 4), pick(t, "smax", 0, 3, 4, 4)
@@ -283,9 +288,48 @@ func runC30(tb stat.TB, c c30Case) {
 			}
 		}
 		verified := c.ClientAuth == int(tls.RequireAndVerifyClientCert) || (c.ClientAuth == int(tls.VerifyClientCertIfGiven) && cl.Cert != 0)
-		if verified && c.CA == 1 && cl.Cert != 1 {
+		if verified && (c.CA == 1 && cl.Cert != 1 || c.CA == 0) {
+			// (with no CA configured nothing can chain to "the configured CA": verification can only fail)
 			if stat.Violate(tb, id, check, "unverified-client-certificate-accepted", c, "%s: a client presenting certificate kind %d (0 none, 2 self-signed, 3 foreign CA) was served although client certificates are required and verified against the CA", what, cl.Cert) {
 				return
+			}
+		}
+	}
+	if c.SwapCA && c.CA == 1 && c.ClientAuth >= int(tls.VerifyClientCertIfGiven) {
+		srv.Stop()
+		ca2File := filepath.Join(dir, "ca2.pem")
+		os.WriteFile(ca2File, p.fcaPEM, 0600)
+		o := n.GetExportOptions()
+		if o.TLS != nil {
+			o.TLS.CAFile = ca2File
+			if err := n.UpdateExportOptions(o); err == nil {
+				srv2, err := absnfs.NewServer(absnfs.ServerOptions{Port: 0, Hostname: "127.0.0.1", UseRecordMarking: true})
+				if err != nil {
+					tb.Fatalf("harness: %v", err)
+				}
+				srv2.SetHandler(n)
+				if err := srv2.Listen(); err == nil {
+					defer srv2.Stop()
+					addr = fmt.Sprintf("127.0.0.1:%d", srv2.GetPort())
+					srv = srv2
+					vers := uint16(tls.VersionTLS13)
+					if c30Versions[c.MaxV] != 0 && c30Versions[c.MaxV] < tls.VersionTLS13 {
+						vers = tls.VersionTLS12
+					}
+					okOld, _, _ := c30Null(addr, p, c30Client{Vers: vers, Cert: 1})
+					okNew, _, _ := c30Null(addr, p, c30Client{Vers: vers, Cert: 3})
+					nt = true
+					stat.Label(fmt.Sprintf("ca_swapped_new_ca_client_served_%v", okNew), 1)
+					if okOld {
+						if stat.Violate(tb, id, check, "client-of-retired-ca-accepted", c, "%s: after CAFile was changed to another CA (GetExportOptions / UpdateExportOptions, new listener) a client whose certificate chains to the former CA is still served (client of the configured CA served: %v)", what, okNew) {
+							return
+						}
+					}
+					// the rotation step below talks to the new listener with a client of the new CA
+					p2 := *p
+					p2.goodClient = p.foreignClient
+					p = &p2
+				}
 			}
 		}
 	}
